@@ -1,7 +1,7 @@
 """C02 Encrypted file equals the documented format."""
 from .common import combined
 LEVEL = 'other'
-RULES = ('R02.a', 'R02.b', 'R02.c', 'R02.d', 'R02.f', 'R01.a', 'R01.c', 'R08.b', 'R13.b', 'R18.c', 'R06.b',
+RULES = ('R02.i', 'R02.a', 'R02.b', 'R02.c', 'R02.d', 'R02.f', 'R01.a', 'R01.c', 'R01.g', 'R01.h', 'R08.b', 'R13.b', 'R18.c', 'R06.b',
          'R10.s', 'R10.c', 'R10.d', 'R10.i', 'R09.a', 'R09.k', 'R09.e', 'R09.d')
 
 
